@@ -8,10 +8,65 @@ TRUSTED = ["harness wraps DefaultBarMatcher.match; bar volumes and limits come f
 ASSUMPTIONS = ["'rounded down to whole lots' holds per fill; after an odd-lot liquidation the bar total can exceed the whole-lot cap (F17)"]
 
 
+def directed_odd_lot(ctx, corr):
+    """a split leaves an odd lot; its full liquidation and a large capped buy share one bar's volume cap"""
+    import random, datetime
+    import bundle as B, trading, acct_sync
+    rnd = random.Random(ctx.rnd.random())
+    S = B.gen_market(rnd, ndays=10, warm=2, n_stocks=1, with_future=False, opts={"kinds": ["CS"], "p_delist": 0, "p_split": 0, "p_div": 0, "p_sus": 0, "p_limit": 0, "p_thin": 0})
+    st = S["stocks"][0]
+    ratio = rnd.choice([1.5, 1.15, 1.2, 1.5])
+    q0 = rnd.choice([100, 300, 700])
+    d_buy, d_split, d_act = 3, 5, 6
+    S["split"][st["id"]] = [(B.d14(S["cal"][d_split]), ratio)]
+    S["fac"][st["id"]] = [(0, 1.0), (B.d14(S["cal"][d_split]), ratio)]
+    for i in sorted(st["bars"]):
+        b = list(st["bars"][i])
+        if i >= d_split:          # prices after the split scale down
+            for j in (1, 2, 3, 4, 7, 8):
+                b[j] = round(b[j] / ratio, 2)
+        if i == d_act:
+            b[5] = float(rnd.choice([1000, 4000, 1300, 2000]))
+            b[6] = b[5] * b[2]
+        st["bars"][i] = tuple(b)
+    cfgk = trading.gen_config(rnd, S, {"no_signal": True, "current_bar_only": True})
+    cfgk["sim"].update({"volume_limit": True, "inactive_limit": True, "price_limit": False, "slippage": 0, "slippage_model": "PriceRatioSlippage"})
+    cfgk["accounts"] = {"stock": 1e7}
+    cfgk["accounts_mod"]["stock_t1"] = False
+    days = S["cal"]
+
+    def script(tr, handlers):
+        def hb(context, bar_dict):
+            import rqalpha.api as api
+            d = context.now.date()
+            if d == days[d_buy]:
+                api.order_shares(st["id"], q0)
+            elif d == days[d_act]:
+                held = context.portfolio.accounts["STOCK"].get_position(st["id"]).quantity
+                if held:
+                    api.order_shares(st["id"], -held)
+                api.order_shares(st["id"], 5000)
+        handlers["handle_bar"] = hb
+        handlers.pop("open_auction", None)
+        return handlers
+    tr = trading.run_trading(rnd, S, cfgk, script=script)
+    ix = acct_sync.Index(S, cfgk)
+    match_sync.run_sync(ctx, corr, tr, ix)
+    monitors.c0506_monitor("C06")(ctx, tr, ix)
+    ctx.stats["directed_odd_lot_runs"] += 1
+    ctx.stats["directed_odd_lot_trades"] += len([1 for k, _ in tr.events if k == "TRADE"])
+
+
 def run(ctx):
     corr = ctx.corr("DefaultBarMatcher.match", "outcome and accumulator of every real matcher call vs model `matchOrder/turnoverAfter` fed with bundle-derived volume and limits")
-    tstream.stream(ctx, ctx.n(60, 3000), None, [monitors.c0506_monitor("C06")], extra_sync=lambda c, tr, ix: match_sync.run_sync(c, corr, tr, ix),
-                   market_opts=lambda k: {"opts": {"p_thin": 0.8, "p_limit": 0.3}})
+    _run_directed(ctx, corr)
+    tstream.stream(ctx, ctx.n(90, 3000), None, [monitors.c0506_monitor("C06")], extra_sync=lambda c, tr, ix: match_sync.run_sync(c, corr, tr, ix),
+                   market_opts=lambda k: {"opts": {"p_thin": 0.8, "p_limit": 0.3, "p_split": 0.7 if k % 2 else 0.3, "kinds": ["CS"] * 7 + ["ETF"] if k % 2 else ["CS"] * 6 + ["ETF", "KSH"]}})
+
+
+def _run_directed(ctx, corr):
+    for _ in range(ctx.n(8, 200)):
+        directed_odd_lot(ctx, corr)
 
 
 def replay(ctx, data):
